@@ -221,15 +221,19 @@ class _MCQuad(torch.autograd.Function):
         else:
             fptensor_params_copy = [y.detach().requires_grad_() for y in fptensor_params]
 
-        aug_epfs = _mcquad(aug_function, log_pfcn,
-                           x0=xsamples[0],  # unused because xsamples is set
-                           xsamples=xsamples,
-                           wsamples=wsamples,
-                           fparams=(grad_epf, epf, *fptensor_params_copy),
-                           pparams=pparams,
-                           method=ctx.method,
-                           bck_options=ctx.bck_config,
-                           **ctx.bck_config)
+        # _mcquad takes the object parameters of log_pfcn from the object, so
+        # the object must hold the tensors of the forward call here (it might
+        # have been given other tensors since then)
+        with log_pfcn.useobjparams(pobjparams):
+            aug_epfs = _mcquad(aug_function, log_pfcn,
+                               x0=xsamples[0],  # unused because xsamples is set
+                               xsamples=xsamples,
+                               wsamples=wsamples,
+                               fparams=(grad_epf, epf, *fptensor_params_copy),
+                               pparams=pparams,
+                               method=ctx.method,
+                               bck_options=ctx.bck_config,
+                               **ctx.bck_config)
         dLdthetaf = aug_epfs[:nftensorparams]
         dLdthetap = aug_epfs[nftensorparams:]
 
